@@ -37,6 +37,12 @@ func init() {
 		CrashIsViolation: true,
 		Run:              run,
 		Replay:           replay,
+		Reproducers: map[string]func(c *fw.Ctx) (bool, string){
+			fResumeArgs: func(c *fw.Ctx) (bool, string) {
+				res := runLimit(limitProgram("resume-args", 200, 1, false, "none"), lua.Options{RegistrySize: 256})
+				return res.bad == "" && (strings.Contains(res.errText, "RESUME-RAISED") || strings.Contains(res.errText, "STATUS-OF-FAILED")), res.bad + " " + fw.Short(res.errText, 200)
+			},
+		},
 	})
 }
 
@@ -196,6 +202,8 @@ func runConfigs(c *fw.Ctx, idx int, count bool) {
 
 // ---------- (2) limits ----------
 
+const fResumeArgs = "C12-resume-arguments-overflow-coroutine-registry"
+
 const post = `
 local function battery()
   local t = {}
@@ -206,26 +214,50 @@ local function battery()
 end
 `
 
-func limitProgram(kind string, d int, reps int, inCo bool) string {
+func limitProgram(kind string, d int, reps int, inCo bool, catch string) string {
 	var sb strings.Builder
 	sb.WriteString(post)
 	sb.WriteString("local keep1, keep2 = 'kept', 42\nlocal up = 0\nlocal function bump() up = up + 1 return up end\n")
 	switch kind {
 	case "depth":
 		sb.WriteString("local function rec(n) if n == 0 then return 0 end return 1 + rec(n - 1) end\n")
-		fmt.Fprintf(&sb, "local function try() return pcall(rec, %d) end\n", d)
+		fmt.Fprintf(&sb, "local function body() return rec(%d) end\n", d)
 	case "depth-meta":
 		sb.WriteString("local mt = {}\nmt.__index = function(t, k) if k == 0 then return 0 end return 1 + t[k - 1] end\nlocal o = setmetatable({}, mt)\n")
-		fmt.Fprintf(&sb, "local function try() return pcall(function() return o[%d] end) end\n", d)
+		fmt.Fprintf(&sb, "local function body() return o[%d] end\n", d)
 	case "args-unpack":
 		fmt.Fprintf(&sb, "local big = {}\nfor i = 1, %d do big[i] = i end\nlocal function cnt(...) return select('#', ...) end\n", d)
-		fmt.Fprintf(&sb, "local function try() return pcall(function() return cnt(unpack(big)) end) end\n")
+		sb.WriteString("local function body() return cnt(unpack(big)) end\n")
 	case "args-table":
 		fmt.Fprintf(&sb, "local big = {}\nfor i = 1, %d do big[i] = i end\n", d)
-		sb.WriteString("local function try() return pcall(function() local t = {unpack(big)} return #t end) end\n")
+		sb.WriteString("local function body() local t = {unpack(big)} return #t end\n")
+	case "resume-args":
+		// the values given to resume do not fit into the suspended coroutine's registry
+		fmt.Fprintf(&sb, "local big = {}\nfor i = 1, %d do big[i] = i end\n", d)
+		sb.WriteString("local function deep(n) if n == 0 then return coroutine.yield(1) end local a, b, c, d, e, f, g, h = 1, 2, 3, 4, 5, 6, 7, 8 return (deep(n - 1)) end\n")
+		sb.WriteString("local function try()\n  local co = coroutine.create(function() return deep(6) end)\n  assert(coroutine.resume(co))\n" +
+			"  local pok, ok, v = pcall(coroutine.resume, co, unpack(big))\n" +
+			"  if not pok then return false, 'RESUME-RAISED: ' .. tostring(ok) end\n" +
+			"  if coroutine.status(co) == 'running' then return false, 'STATUS-OF-FAILED-COROUTINE-IS-running' end\n" +
+			"  if coroutine.running() ~= nil and not INCO then return false, 'RUNNING-COROUTINE-LEFT-SET' end\n" +
+			fmt.Sprintf("  if ok then return true, %d end\n  return ok, v\nend\n", d))
+		catch = "none"
+	}
+	// who catches the overflow: pcall, xpcall with a handler (which may not get
+	// room to run), or the resume of a coroutine whose own stack/registry overflows
+	switch catch {
+	case "none":
+	case "xpcall":
+		sb.WriteString("local function try() return xpcall(body, function(m) return m end) end\n")
+	case "co-resume":
+		sb.WriteString("local function try()\n  local co = coroutine.create(body)\n  local ok, v = coroutine.resume(co)\n" +
+			"  if not ok and coroutine.status(co) ~= 'dead' then return false, 'STATUS-OF-FAILED-COROUTINE-IS-' .. coroutine.status(co) end\n" +
+			"  if coroutine.running() ~= nil and not INCO then return false, 'RUNNING-COROUTINE-LEFT-SET' end\n  return ok, v\nend\n")
+	default:
+		sb.WriteString("local function try() return pcall(body) end\n")
 	}
 	if inCo {
-		sb.WriteString("local plain = try\ntry = function() return coroutine.wrap(function() return plain() end)() end\n")
+		sb.WriteString("INCO = true\nlocal plain = try\ntry = function() return coroutine.wrap(function() return plain() end)() end\n")
 	}
 	// every call is made from the same frame shape: near the limit the outcome depends on the caller's register top
 	fmt.Fprintf(&sb, "local ok, v, same = nil, nil, 0\nsnap()\nfor i = 1, %d do local ok2, v2 = try() if i == 1 then ok, v = ok2, v2 elseif (ok2 and v2 == %d) or (not ok2 and type(v2) == 'string') then same = same + 1 end end\nsnap()\n", reps+1, d)
@@ -286,10 +318,11 @@ func runLimit(src string, opts lua.Options) *limitRun {
 
 func runLimits(c *fw.Ctx, idx int, count bool) {
 	r := c.SubRand("limit", idx)
-	kind := []string{"depth", "depth", "depth-meta", "args-unpack", "args-table"}[r.Intn(5)]
+	kind := []string{"depth", "depth", "depth-meta", "args-unpack", "args-table", "args-unpack", "resume-args"}[r.Intn(7)]
 	var opts lua.Options
 	var lo, hi int
 	inCo := r.Intn(4) == 0
+	catch := []string{"pcall", "pcall", "xpcall", "co-resume"}[r.Intn(4)]
 	reps := 100
 	if strings.HasPrefix(kind, "depth") {
 		L := []int{15, 16, 17, 23, 24, 25, 33, 64, 100, 256}[r.Intn(10)]
@@ -312,22 +345,28 @@ func runLimits(c *fw.Ctx, idx int, count bool) {
 			lo, hi = opts.RegistryMaxSize-40, opts.RegistryMaxSize+12
 		}
 		reps = 20
+		if kind == "resume-args" {
+			// the resumer holds the same values in its own (almost empty) registry:
+			// stay well below its limit; the suspended coroutine has ~70 slots in use
+			lo, hi = hi-12-100, hi-12-34
+		}
 	}
 	if lo < 1 {
 		lo = 1
 	}
-	desc := fmt.Sprintf("%s inCoroutine=%v CallStackSize=%d Minimize=%v RegistrySize=%d RegistryMaxSize=%d GrowStep=%d", kind, inCo, opts.CallStackSize, opts.MinimizeStackMemory, opts.RegistrySize, opts.RegistryMaxSize, opts.RegistryGrowStep)
+	desc := fmt.Sprintf("%s caught-by=%s inCoroutine=%v CallStackSize=%d Minimize=%v RegistrySize=%d RegistryMaxSize=%d GrowStep=%d", kind, catch, inCo, opts.CallStackSize, opts.MinimizeStackMemory, opts.RegistrySize, opts.RegistryMaxSize, opts.RegistryGrowStep)
 	var battery string
 	sawOK, sawErr := false, false
 	firstErr := -1
 	for d := lo; d <= hi; d++ {
-		src := limitProgram(kind, d, reps, inCo)
+		src := limitProgram(kind, d, reps, inCo, catch)
 		cs := Case{Kind: "limit", Index: idx, Src: src, Cfg: desc}
 		c.Begin(cs)
 		res := runLimit(src, opts)
 		if count {
 			c.Count("limit_runs", 1)
 			c.Count("limit_kind_"+kind, 1)
+			c.Count("limit_caught_by_"+catch, 1)
 		}
 		bad := res.bad
 		if bad == "" {
@@ -348,6 +387,11 @@ func runLimits(c *fw.Ctx, idx int, count bool) {
 				if !limitText(res.errText) {
 					bad = "the overflow error is not a stack/registry overflow message: " + fw.Short(res.errText, 160)
 				}
+				for _, mark := range []string{"RESUME-RAISED", "STATUS-OF-FAILED-COROUTINE-IS-", "RUNNING-COROUTINE-LEFT-SET"} {
+					if strings.Contains(res.errText, mark) {
+						bad = "coroutine bookkeeping after the overflow: " + fw.Short(res.errText, 160)
+					}
+				}
 				if !strings.HasPrefix(res.trace[0], `"first",false,"string"`) {
 					bad = "the overflow did not surface as a string error caught by pcall: " + res.trace[0]
 				}
@@ -366,7 +410,8 @@ func runLimits(c *fw.Ctx, idx int, count bool) {
 		}
 		if bad != "" {
 			cs.Diff = bad
-			c.Violation(fmt.Sprintf("limit %s at size %d: %s", desc, d, bad), cs)
+			c.ViolationOrKnown(fResumeArgs, kind == "resume-args" && (strings.Contains(bad, "RESUME-RAISED") || strings.Contains(bad, "STATUS-OF-FAILED") || strings.Contains(bad, "RUNNING-COROUTINE") || strings.Contains(bad, "repeating the same call")),
+				fmt.Sprintf("limit %s at size %d: %s", desc, d, bad), cs)
 			c.End(false, "")
 			continue
 		}
